@@ -265,6 +265,26 @@ def ungated(F, R, rule='B.C06.ungated', fn_filter=None):
                     detail={'fn': b.path, 'duration': durs[0][:80] if durs else None}, where=b.file, nontrivial=False)
         if not gates:
             continue
+        # the parameters of the items of a collection of `self` (a track's send routes) are time-keeping of `self` too: the
+        # loop that updates them stands for them (its header is the block that has to come before the gate)
+        from .c02 import iter_source, loop_of
+        for bb, t in b.calls():
+            if (callee_path(t) or '') != 'parameter::Parameter::<T>::update' or (bb, t) in ups:
+                continue
+            L_ = loop_of(b, bb)
+            if L_ is None:
+                continue
+            src = iter_source(b, L_)
+            m_ = __import__('re').search(r'\(\*self\)\.([a-z_]+)', src or '')
+            if not m_:
+                continue
+            n += 1
+            coll = m_.group(1)
+            hdr = L_['header']
+            late = [g for g, kind in gates if not b.dominates(hdr, g)]
+            R.check(not late, rule, '%s|%s[..]' % (b.path, coll),
+                    '%s updates the parameters of its %s only after its freeze gate (%s): while paused their tween clocks stand still'
+                    % (b.path, coll, [k for g, k in gates if g in late]), detail={'fn': b.path, 'collection': coll}, where=b.where(bb))
         for bb, t in ups:
             fld = describe(b, t['args'][0], depth=3, at=bb)
             # parameters living inside an optional component (spatial data) are updated where that component is unpacked
@@ -495,6 +515,18 @@ def finish(F, R):
     R.check(ok and n_true >= 1, 'B.C06.finish', 'update_tween', why or 'no completing path', detail={'paths': len(prs), 'finishing': n_true}, where=b.file)
     R.check(stag_ok, 'B.C06.stagnant', 'only-on-finish-fixed', 'stagnant is set outside the finish edge of a fixed target',
             detail='stagnant = true only when finishing towards Value::Fixed')
+    # ... and nowhere else: the only other writers of the flag are `set` (clears it) and the constructor (a parameter whose
+    # target is linked to a modulator or a listener must never be marked at rest: it would stop following it)
+    others = []
+    for ob in F.bodies:
+        if ob.krate != 'kira' or not ob.path.startswith(P + '::') or ob.path == b.path:
+            continue
+        for bb2, _, s2 in ob.stmts():
+            if s2['k'] == 'assign' and s2['lhs']['p'] and pretty_place(ob, s2['lhs']).endswith('.stagnant'):
+                v = describe_rv(ob, s2['rv'], depth=4, at=bb2)
+                if not (ob.path == P + '::set' and v == 'False'):
+                    others.append('%s: stagnant = %s' % (ob.path.split('::')[-1], v[:50]))
+    R.check(not others, 'B.C06.stagnant', 'no-other-writer', 'the stagnant flag is also written by %s' % others[:2], detail={'writers': 'update_tween (finish, fixed), set (false), new'})
     cb = F.body(P + '::calculate_new_raw_value')
     if R.check(cb is not None, 'B.C06.finish', 'anchor:calc', 'calculate_new_raw_value not found'):
         okc = False
@@ -503,6 +535,21 @@ def finish(F, R):
                 okc = str(p.ret).startswith('value::Value::<T>::raw_value(')
         R.check(okc, 'B.C06.finish', 'idle-value', 'an idle parameter does not return its value\'s raw value unmodified',
                 detail='Idle{value} => value.raw_value(info)')
+        # while a tween is pending or running the value is the interpolation from `start` towards the target's raw value
+        # (or held, when the target does not resolve) - never the raw value of something else, which the tween would leave
+        # with a jump when it starts
+        bad_t = []
+        nt = 0
+        for p in explore(cb):
+            if p.end == 'return' and any(lab == 'Tweening' for _, _, lab in p.decisions):
+                nt += 1
+                r = str(p.ret)
+                good = r == 'std::option::Option::None' or (r.startswith('std::option::Option::<T>::map(value::Value::<T>::raw_value(') and 'as Tweening).target' in r.split('closure(')[0]
+                                                            and 'as Tweening).start' in r)
+                if not good:
+                    bad_t.append(r[:90])
+        R.check(nt >= 1 and not bad_t, 'B.C06.finish', 'tweening-value', 'a tweening parameter can have the value %s: not the interpolation from its start value towards its target' % bad_t[:2],
+                detail='Tweening => target.raw_value(info).map(|t| interpolate(start, t, tween.value(time)))')
 
 
 def set_rule(F, R):
